@@ -796,7 +796,7 @@ func init() {
 				for _, n := range []natSpec{nats[0], nats[8], nats[9]} {
 					out = append(out, c01concurrent(n, 2, 2, 2, true, 0))
 				}
-				out = append(out, c01concurrent(nats[2], 3, 2, 2, true, 0))
+				out = append(out, c01concurrent(nats[2], 3, 2, 1, true, 0)) // three senders: bound 1 in quick (bound 3 in thorough)
 				// bounded router queues: no loss while the number of datagrams stays below the bound,
 				// and with a bound of 1 whatever arrives is still intact, in order, once
 				out = append(out, c01concurrent(nats[0], 2, 2, 2, true, 5), c01concurrent(nats[0], 2, 2, 2, true, 1))
